@@ -1,6 +1,7 @@
 import QuantemModel.Core.Proto
 import QuantemModel.Model.Aberration
 import QuantemModel.Model.AberrationState
+import QuantemModel.Model.AberrationOrder
 open Lean QuantemModel QuantemModel.Proto
 open QuantemModel.Generated.Aberration QuantemModel.Aberration
 
@@ -194,6 +195,14 @@ def step (st : Unit) (j : Json) : Unit × Json :=
     | "c2p" =>
         let c ← envField j "coefs"
         pure (okJson (dictToJson (cartesian_to_polar_aberrations c)))
+    | "p2c_k" =>         -- growth 6: the loops with an explicit max_order (Model/AberrationOrder.lean)
+        let c ← envField j "coefs"
+        let k ← natField j "k"
+        pure (okJson (dictToJson (QuantemModel.AberrationOrder.p2cOrder c k)))
+    | "c2p_k" =>
+        let c ← envField j "coefs"
+        let k ← natField j "k"
+        pure (okJson (dictToJson (QuantemModel.AberrationOrder.c2pOrder c k)))
     | "merge" =>
         let a ← envField j "init"
         let d ← envField j "delta"
